@@ -326,12 +326,59 @@ Definition revdeps_with (g : graph) (roots : list label) (chs : list (list label
   rev_loop (S (length g + length roots)) g hidden maxd (rev_init g hidden roots chs (mkR [] [] [])).
 
 (* ------------------------------------------------------------------------------------------- *)
+(* executable side condition of the exactness theorem for `deps --level N`: no target is reachable from the
+   roots at two different costs.  (Not part of the Go code: a labelling of the reachable targets with the cost
+   of the first path found, and a check that every edge out of a root or a labelled target agrees with it.) *)
+
+(* what one edge adds to currentLevel in deps: nothing for a hidden dependency of the same rule *)
+Definition dcost (g : graph) (hidden : bool) (u v : label) : Z :=
+  if hidden then 1%Z
+  else match find g u, find g v with
+       | Some iu, Some iv => if has_parent v iv && N.eqb (t_parent iv) (t_parent iu) then 0%Z else 1%Z
+       | _, _ => 1%Z
+       end.
+
+Fixpoint lab_get (lab : list (label * Z)) (l : label) : option Z :=
+  match lab with
+  | [] => None
+  | (k, c) :: r => if N.eqb l k then Some c else lab_get r l
+  end.
+
+Definition out_edges (g : graph) (u : label) : list label :=
+  match find g u with Some iu => succs g [] iu | None => [] end.
+
+Definition lab_relax (g : graph) (hidden : bool) (u : label) (c : Z) (lab : list (label * Z)) : list (label * Z) :=
+  fold_left (fun lb v => match lab_get lb v with
+                         | Some _ => lb
+                         | None => lb ++ [(v, (c + dcost g hidden u v)%Z)]
+                         end) (out_edges g u) lab.
+
+Definition lab_round (g : graph) (hidden : bool) (roots : list label) (lab : list (label * Z)) : list (label * Z) :=
+  let lab1 := fold_left (fun lb r => lab_relax g hidden r 0%Z lb) roots lab in
+  fold_left (fun lb uc => lab_relax g hidden (fst uc) (snd uc) lb) lab1 lab1.
+
+Definition cost_labels (g : graph) (hidden : bool) (roots : list label) : list (label * Z) :=
+  Nat.iter (S (length g)) (lab_round g hidden roots) [].
+
+Definition edges_okb (g : graph) (hidden : bool) (lab : list (label * Z)) (u : label) (c : Z) : bool :=
+  forallb (fun v => match lab_get lab v with
+                    | Some cv => Z.eqb cv (c + dcost g hidden u v)
+                    | None => false
+                    end) (out_edges g u).
+
+Definition unique_costb (g : graph) (hidden : bool) (roots : list label) : bool :=
+  let lab := cost_labels g hidden roots in
+  forallb (fun r => edges_okb g hidden lab r 0%Z) roots
+  && forallb (fun uc => edges_okb g hidden lab (fst uc) (snd uc)) lab.
+
+(* ------------------------------------------------------------------------------------------- *)
 (* correspondence cases *)
 
 Inductive query :=
 | QSome (ex froms tos : list label) (show_hidden : bool) (printed : list label)      (* [] = error "Couldn't find" *)
 | QDeps (roots : list label) (hidden : bool) (level : Z) (printed : list (Z * label))
-| QRev (roots : list label) (hidden : bool) (level : Z) (printed : list label).      (* as printed: sorted *)
+| QRev (roots : list label) (hidden : bool) (level : Z) (printed : list label)       (* as printed: sorted *)
+| QUniq (roots : list label) (hidden : bool) (unique : bool).   (* the harness's own min-cost = max-cost test *)
 
 Inductive case := Case (g : graph) (qs : list query).
 
@@ -370,6 +417,7 @@ Definition check_query (g : graph) (q : query) : bool :=
                           | Some out => set_eqb out printed
                           | None => false end)
               (choices (map (fun r => perms (children g r)) roots))
+  | QUniq roots hidden unique => Bool.eqb (unique_costb g hidden roots) unique
   end.
 
 Definition check (c : case) : bool :=
